@@ -327,7 +327,9 @@ ListObjects(st, cfg, op) ==   \* op: b, v2, prefix, delim, max, marker, hasMarke
                keys |-> [i \in 1..Len(keys) |-> EntryOf(e.st, op.b, keys[i].name)],
                prefixes |-> [i \in 1..Len(pres) |-> pres[i].name],
                optPrefixes |-> SetToSortSeq(strad, LexLess),
-               trunc |-> Len(after) > Len(page)])
+               trunc |-> Len(after) > Len(page),
+               \* the document echoes the request's prefix and delimiter; V2 counts its entries (KeyCount)
+               echo |-> [prefix |-> op.prefix, delim |-> op.delim]])
 
 \* the complete version listing (single page); order inside a key is followed
 ListVersions(st, cfg, op) ==   \* op: b, prefix, delim
